@@ -117,6 +117,8 @@ def run(ctx, rep):
     n = 700 if ctx.quick else 6000
     progs = PG.gen_programs(rng, n, tainted=False)
     progs += PG.gen_programs(ctx.rng('unres2'), 100 if ctx.quick else 1000, tainted=False, second_unresolvable=True)
+    # decorators that only wrap, stacked: one pass-through applied twice (two functions sharing a code object)
+    progs += PG.gen_programs(ctx.rng('stack'), 80 if ctx.quick else 600, tainted=False, routes=['closure_stack'])
     rep.rule = ('programs of the forwarding grammar (untainted): wrapper signatures with <=2 named parameters and a star, '
                 'callees from U(2), 1-2 forwarding calls with 0-2 literal positionals / keyword names / own star arguments, '
                 '11 statement contexts x 6 callee resolution routes (global, closure, attribute chain, self.method, parameter via partial, '
